@@ -16,6 +16,7 @@ LEVEL_TEXT = (
     'in sync mode, through the real Processes/API/dispatcher/handlers; oracle: executed == written (order), one terminal reply per '
     'acknowledged command in order with the expected done/error, and every neighbor Adj-RIB-Out == the table obtained by applying only '
     'accepted commands to only the neighbors an independent selector matcher selects.'
+    ' API version 4 runs mixing both spellings, groups with a failing member, multi-line groups, a neighbor served by a second silent helper, and a helper that dies with an unterminated line behind it and is respawned.'
 )
 LEVEL_NOTE = 'trusts: the reference selector matcher and command-outcome table in this file (only commands with an unambiguous outcome are judged), simulated pipes'
 DESIGN_REF = 'DESIGN.md section 5, C14'
